@@ -156,6 +156,8 @@ func genC02Coll(r *Rng, e *Emitter) {
 	gc := geom.NewGeometryCollection()
 	length := 1 + r.Intn(30)
 	var ops, obs []string
+	batch := make([]geom.T, 8)
+	decoy := geom.T(geom.NewPointFlat(geom.XYZM, []float64{-1, -2, -3, -4}))
 	member := func() geom.T {
 		l := pref
 		if r.chance(1, 5) {
@@ -170,7 +172,9 @@ func genC02Coll(r *Rng, e *Emitter) {
 		switch c := r.Intn(20); {
 		case c < 8:
 			k := r.Intn(4)
-			gs := make([]geom.T, k)
+			// the caller's own slice, with spare capacity, reused for every batch of this history and
+			// scribbled on after the call: the collection must have taken its own copy of the members
+			gs := batch[:k]
 			parts := make([]string, k)
 			for j := range gs {
 				gs[j] = member()
@@ -178,6 +182,9 @@ func genC02Coll(r *Rng, e *Emitter) {
 			}
 			ops = append(ops, "(push "+strings.Join(parts, " ")+")")
 			obs = append(obs, guard(func() string { return pushRes(gc.Push(gs...)) }))
+			for j := range batch {
+				batch[j] = decoy
+			}
 			e.tally(fmt.Sprintf("op=gc-push-%d", k))
 		case c < 11:
 			l := pref
